@@ -678,6 +678,30 @@ std::vector<Workload> CuratedWorkloads() {
     w.legacy = k == 2 ? 3 : 2;
     out.push_back(w);
   }
+  // Attributes stored without the built-in compression (ExpertEncoder option):
+  // integer values stand verbatim in the stream, so a word-sized fault chooses
+  // any symbol the sequential integer decoder will see.
+  for (int k = 0; k < 2; ++k) {
+    Workload w;
+    w.kind = k;
+    w.topo = 0;
+    w.n = 9 + k;
+    w.gseed = ++gs;
+    AttDesc pos;
+    w.atts.push_back(pos);
+    AttDesc g;
+    g.type = draco::GeometryAttribute::GENERIC;
+    g.dt = draco::DT_INT32;
+    g.nc = 1 + k;
+    w.atts.push_back(g);
+    w.expert = 1;
+    w.builtin = 0;
+    w.method = 0;
+    w.qb[0] = 10;
+    w.pred[4] = k == 0 ? -2 : 0;
+    w.espeed = w.dspeed = 5;
+    out.push_back(w);
+  }
   // Shallow kd-trees (2 and 4 quantization bits): every leaf is reached after a
   // handful of steps, so an inflated payload point count turns into output
   // growth within the quick step budget (defect #10).
